@@ -143,8 +143,25 @@ func runIsolated(lines [][]byte) []isoResult {
 		}(lo, hi)
 	}
 	wg.Wait()
+	// A worker that died or hung may have been the victim of the machine rather than of the case
+	// (memory pressure, a stalled scheduler when many checks run at once): every such case is run
+	// again, alone, in a fresh worker, and only a second failure is believed.
+	for i := range results {
+		if results[i].failure == "" {
+			continue
+		}
+		again := make([]isoResult, 1)
+		runWorkerOnce([][]byte{lines[i]}, again, 0, 1)
+		if again[0].failure == "" && again[0].line != nil {
+			transientWorkerFailures++
+			results[i] = again[0]
+		}
+	}
 	return results
 }
+
+// transientWorkerFailures: cases whose worker failed once and completed when re-run alone.
+var transientWorkerFailures int
 
 // runWorkerOnce feeds lines[pos:hi] to one worker; returns the next position to process (after a
 // crash, the position after the crashing case).
